@@ -505,6 +505,10 @@ func GenConfigMap(rng *rand.Rand, cfg Config) *api.ConfigMap {
 		a := pick(rng, keys)
 		cm.Data[a[0]] = a[1+rng.Intn(len(a)-1)]
 	}
+	if cfg.GlobalKeys == nil && cfg.NotReady && rng.Intn(3) == 0 {
+		// not-ready and terminating endpoints are only rendered (weight 0) with this key
+		cm.Data["drain-support"] = "true"
+	}
 	return cm
 }
 
@@ -641,6 +645,14 @@ func GenChange(rng *rand.Rand, cfg Config, s *State) pipeline.Change {
 				continue
 			}
 			_, ep := regenEndpoints(rng, cfg, ni, si, svc.(*api.Service))
+			if old, ok := s.objs[Key(ep)]; ok && cfg.NotReady && rng.Intn(3) == 0 {
+				// readiness flip: the same address set, one address moves between
+				// addresses and notReadyAddresses (only per-endpoint attributes change)
+				if fl := flipReadiness(rng, old.(*api.Endpoints)); fl != nil {
+					ch = &pipeline.Change{Op: pipeline.Update, Obj: fl}
+					break
+				}
+			}
 			if _, ok := s.objs[Key(ep)]; ok && rng.Intn(6) == 0 {
 				ch = &pipeline.Change{Op: pipeline.Delete, Obj: ep}
 			} else if ok {
@@ -738,6 +750,35 @@ func GenChange(rng *rand.Rand, cfg Config, s *State) pipeline.Change {
 	c := pipeline.Change{Op: pipeline.Update, Obj: ep}
 	s.Apply([]pipeline.Change{c})
 	return c
+}
+
+// flipReadiness moves one address of one subset between Addresses and NotReadyAddresses;
+// nil if the object has no address at all.
+func flipReadiness(rng *rand.Rand, old *api.Endpoints) *api.Endpoints {
+	ep := old.DeepCopy()
+	var idx []int
+	for i, ss := range ep.Subsets {
+		if len(ss.Addresses)+len(ss.NotReadyAddresses) > 0 {
+			idx = append(idx, i)
+		}
+	}
+	if len(idx) == 0 {
+		return nil
+	}
+	ss := &ep.Subsets[idx[rng.Intn(len(idx))]]
+	toNotReady := len(ss.Addresses) > 0 && (len(ss.NotReadyAddresses) == 0 || rng.Intn(2) == 0)
+	if toNotReady {
+		i := rng.Intn(len(ss.Addresses))
+		a := ss.Addresses[i]
+		ss.Addresses = append(ss.Addresses[:i:i], ss.Addresses[i+1:]...)
+		ss.NotReadyAddresses = append(ss.NotReadyAddresses, a)
+	} else {
+		i := rng.Intn(len(ss.NotReadyAddresses))
+		a := ss.NotReadyAddresses[i]
+		ss.NotReadyAddresses = append(ss.NotReadyAddresses[:i:i], ss.NotReadyAddresses[i+1:]...)
+		ss.Addresses = append(ss.Addresses, a)
+	}
+	return ep
 }
 
 func regenEndpoints(rng *rand.Rand, cfg Config, ni, si int, svc *api.Service) (*api.Service, *api.Endpoints) {
